@@ -558,6 +558,72 @@ def r23_inner_wins(c, facts, rule='C05.R15'):
     c.floor(R, 'sites where an inner and an outer annotation set are merged', n, 2)
 
 
+ANN_PASS_DOWN = {       # frozen: the evaluators that stand for the expression they evaluate (their annotations are its annotations)
+    'eval_any': 'dispatch', 'eval_terminal': 'a term and its annotations', 'eval_subexpression': 'parentheses',
+    'eval_declaration': 'a name stands for its right-hand side', 'eval_variable': 'a name stands for its definition',
+    'eval_application': 'an application stands for the body of the function', 'eval_recursion': 'a rec stands for its body (f44403b)',
+}
+
+
+def r25_annotation_scope(c, facts, rule='C02.R25'):
+    """annotations belong to the expression they are written on. The evaluator of a composite - relation, transfer,
+    content, object, property, array, URI, operator - evaluates its *parts* with an empty annotation set; only the
+    evaluators of forms that stand for another expression hand their own annotations down. A relation that hands its
+    annotations to its transfers puts one operationId, summary and description on every operation of the resource."""
+    R = c.rule(rule, 'ANNOTATION-SCOPE: the evaluator of a composite evaluates its parts with an empty annotation set; only %s hand their own annotations on' % ', '.join(sorted(ANN_PASS_DOWN)))
+    n = 0
+    for q, l in sorted(facts.by_qname.items()):
+        if not q.startswith('oal_compiler::eval::eval_') or '{closure' in q or q not in facts.known_fns_or_aliases():
+            continue
+        fn = facts.normalised(l[0])
+        if not fn.mir:
+            continue
+        annp = [i for i in range(1, fn.mir['argc'] + 1) if 'Annotation' in fn.mir['locals'][i]['ty']]
+        if not annp:
+            continue
+        T = taint_forward(fn, annp)
+        short = q.split('::')[-1]
+        for b, t in fn.calls():
+            nm = P.strip((callee_of(t) or {}).get('def', '')).split('::')[-1]
+            if not (nm.startswith('eval_') or nm == 'eval'):
+                continue
+            for a in t['args']:
+                if 'Annotation' not in a.get('ty', '') or 'l' not in a:
+                    continue
+                n += 1
+                down = a['l'] in T or a['l'] in annp
+                inst = {'fn': short, 'part evaluated by': nm, 'own annotations handed down': down}
+                if down and short not in ANN_PASS_DOWN:
+                    c.bad(R, '%s:own-annotations-handed-to-part:%s' % (short, nm), '%s evaluates a part of its expression (%s) with its own annotations: what is written on the whole (operationId, summary, description, required, examples ..) is read again by every part' % (q, nm), **inst)
+                else:
+                    c.ok(R, inst)
+    c.floor(R, 'evaluations of a part with an annotation argument', n, 20)
+
+
+def r26_num_exact(c, facts, rule='C02.R26'):
+    """a number written in the program is the number in the document: integers stay integers (i64 / u64 as serde_yaml
+    read them) and floats stay floats from the annotation to the emitted facet. A cast between a float and an integer
+    type on the way rounds what does not fit (2^53 + 1 read through f64 comes out even)."""
+    R = c.rule(rule, 'NUM-EXACT: no value is converted between floating-point and integer representation in the evaluator, the annotations or the emitter (expected: no such cast)')
+    n = 0
+    bad = []
+    for fn in sorted(facts.fns.values(), key=lambda f: f.qname):
+        if not fn.mir or fn.crate not in ('oal_compiler', 'oal_openapi'):
+            continue
+        for b, blk in fn.blocks():
+            for st in blk['stmts']:
+                if st['s'] == 'assign' and st['rv']['r'] == 'cast':
+                    n += 1
+                    k = str(st['rv'].get('kind') or st['rv'].get('ck') or '')
+                    if k in ('FloatToInt', 'IntToFloat') and not st.get('exp'):
+                        bad.append((facts.home(fn).qname, k, st['rv'].get('ty')))
+    for h, k, ty in sorted(set(bad)):
+        c.bad(R, 'lossy-number-cast:%s:%s' % (h.split('::', 1)[-1], k), '%s converts a number with a %s cast (to %s): values that do not fit the other representation exactly are emitted changed, silently' % (h, k, ty))
+    if not bad:
+        c.ok(R, {'casts examined': n, 'between float and integer': 0})
+    c.floor(R, 'cast expressions examined in oal_compiler and oal_openapi', n, 20)
+
+
 def r18_per_content(c, facts, rule='C02.R18'):
     """a response has headers and a description whether or not it has a body: in the loop over the contents of a
     transfer the two are taken from every content - not only from those with a schema (`<status=201, headers={..}>`)"""
@@ -859,6 +925,12 @@ def run(c, facts):
     c.run(r18_per_content, facts)
     c.run(r19_precedence, facts)
     c.run(r21_annotation_precedence, facts)
+    c.run(r26_num_exact, facts)
+    c.run(r25_annotation_scope, facts)
+    import c13 as _c13w
+    R24 = c.rule('C02.R24', 'NO-RESIDUE: what is on disk after a successful run is the document of this program and nothing else - the target is written whole over a truncated file (shared with C13.R1, C13.R15)')
+    c.shared(R24, _c13w.r1_sole_writer, 'C13.R1', facts)
+    c.shared(R24, _c13w.r15_write_verbatim, 'C13.R15', facts)
     c.run(r20_method_free, facts)
     c.run(r22_operands_whole, facts)
     c.run(r13_merged_assign, facts)
